@@ -18,6 +18,7 @@ import json
 import math
 import os
 import re
+import signal
 from fractions import Fraction
 
 import numpy as np
@@ -30,6 +31,7 @@ from vlib.core import enc_list, enc_rat, enc_ratlist, enc_bool, VERIF
 TOL64 = Fraction(1, 10 ** 9)     # float64 paths (DESIGN section 8)
 EPS32 = Fraction(2, 10 ** 5)     # float32 kernels: accumulated rounding of the gains (DESIGN section 8)
 N_RANDS = 400                    # values of rand() handed to the model per Leiden case
+CALL_TIMEOUT = 15                # seconds allowed to one call of the implementation (inputs have <= 40 nodes)
 
 RULE = ('get_modularity: all digraphs n<=3 (loops, sampled weights) x all labelings (one negative label sampled) x '
         '{degree, uniform, custom} x resolutions, rectangular matrices with labels_col, structured random graphs '
@@ -43,7 +45,7 @@ RULE = ('get_modularity: all digraphs n<=3 (loops, sampled weights) x all labeli
         'distinct = distinct (entry point, input, options)')
 ASSUMPTIONS = ['scipy sparse products / `+=` / bmat / np.unique are the substrate (monitored through the outputs)',
                'the compiled kernels evaluate float expressions in IEEE binary32 without contraction (the run lines of the kernels compare bit patterns)',
-               'optimize_refine_core draws from libc rand(); the harness reads the same stream through ctypes (srand before the call)',
+               'optimize_refine_core draws from libc rand(); the harness reads the same stream through ctypes (the seed the kernel receives is observed at the call, or set by the harness when the signature has none)',
                'float32 rounding of the gains is outside the theorems: spec lines allow EPS32 = 2e-5']
 
 KINDS = ['dugue', 'newman', 'potts']
@@ -104,13 +106,14 @@ def _plain_rand(ctx):
         py = open(os.path.join(root, 'leiden.py')).read()
     except OSError:
         return False
-    return 'rand()' in core and 'srand' not in core and 'srand' not in py
+    return 'rand()' in core and 'libc.stdlib' in core and 'optimize_refine_core' in py
 
 
 # ------------------------------------------------------------------------------------------------
-# cases from descriptions (a description is what a replay file stores)
+# the implementation side: every call runs in a forked worker under an alarm, so that a kernel that no longer
+# terminates (or crashes) is an answer ('hang' / 'crash') and not a stuck check
 # ------------------------------------------------------------------------------------------------
-def case_modularity(desc):
+def _impl_modularity(desc):
     from sknetwork.clustering import get_modularity
     a = _mk_csr(desc)
     inp = a.toarray() if desc.get('dense') else a
@@ -119,21 +122,158 @@ def case_modularity(desc):
     w = desc['weights']
     w_arg = np.array(w, dtype=float) if isinstance(w, list) else w
     res = desc['resolution']
+    r = get_modularity(inp, labels, labels_col, weights=w_arg, resolution=res, return_all=True)
+    m = get_modularity(inp, labels, labels_col, weights=w_arg, resolution=res)
+    vals = [float(x) for x in r]
+    if not all(math.isfinite(v) for v in vals):
+        return 'err nonfinite'
+    if float(m) != vals[0]:
+        return 'return_all-mismatch %r %r' % (float(m), vals[0])
+    return 'ok ' + ' '.join(enc_rat(v) for v in vals)
 
-    def f():
-        r = get_modularity(inp, labels, labels_col, weights=w_arg, resolution=res, return_all=True)
-        m = get_modularity(inp, labels, labels_col, weights=w_arg, resolution=res)
-        vals = [float(x) for x in r]
-        if not all(math.isfinite(v) for v in vals):
-            return 'err nonfinite'
-        if float(m) != vals[0]:
-            return 'return_all-mismatch %r %r' % (float(m), vals[0])
-        return 'ok ' + ' '.join(enc_rat(v) for v in vals)
-    impl = _call(f)
+
+def _kernel_arrays(desc):
+    it = np.int64 if desc.get('itype', 'int64') == 'int64' else np.int32
+    return dict(
+        labels=np.array(desc['labels'], dtype=it), indices=np.array(desc['indices'], dtype=it),
+        indptr=np.array(desc['indptr'], dtype=it), data=_f32(desc['data']).copy(),
+        ow=_f32(desc['out_weights']).copy(), iw=_f32(desc['in_weights']).copy(),
+        oc=_f32(desc['out_cluster_weights']).copy(), ic=_f32(desc['in_cluster_weights']).copy(),
+        sl=_f32(desc['self_loops']).copy())
+
+
+def _impl_core(desc):
+    from sknetwork.clustering.louvain_core import optimize_core
+    ar = _kernel_arrays(desc)
+    k = len(desc['out_cluster_weights'])
+    lab, inc = optimize_core(ar['labels'], ar['indices'], ar['indptr'], ar['data'], ar['ow'], ar['iw'], ar['oc'],
+                             ar['ic'], np.zeros(k, dtype=np.float32), ar['sl'], desc['resolution'], desc['tol'])
+    return 'ok %s %d' % (enc_list(np.asarray(lab)), _bits([inc])[0])
+
+
+def _impl_refine(desc):
+    from sknetwork.clustering.leiden_core import optimize_refine_core
+    ar = _kernel_arrays(desc)
+    k = len(desc['out_cluster_weights'])
+    refined = np.array(desc['refined'], dtype=ar['labels'].dtype)
+    args = (ar['labels'], refined, ar['indices'], ar['indptr'], ar['data'], ar['ow'], ar['iw'], ar['oc'], ar['ic'],
+            np.zeros(k, dtype=np.float32), ar['sl'], desc['resolution'])
+    try:
+        out = optimize_refine_core(*args, desc['seed'])      # the kernel seeds libc's generator itself
+    except TypeError:
+        _libc.srand(desc['seed'])                            # signature without the seed argument
+        out = optimize_refine_core(*args)
+    return 'ok ' + enc_list(np.asarray(out))
+
+
+def _impl_fit(desc):
+    from sknetwork.clustering import Louvain, Leiden
+    a = _mk_csr(desc)
+    fb = bool(desc.get('force_bipartite'))
+    bip = fb or a.shape[0] != a.shape[1]
+    cls = Louvain if desc['f'] == 'Louvain' else Leiden
+    base = int(desc.get('seed', 1))
+    est = cls(resolution=desc['resolution'], modularity=desc['kind'], tol_optimization=desc['tol_optimization'],
+              tol_aggregation=desc['tol_aggregation'], n_aggregations=desc['n_aggregations'], shuffle_nodes=False,
+              sort_clusters=False, return_probs=False, return_aggregate=False, random_state=base)
+    seeds = []
+    if desc['f'] == 'Leiden':
+        # observe, at the kernel boundary, which stream of rand() each refinement draws from: the seed Leiden.fit
+        # hands to the kernel, or (signature without a seed) a seed set here just before the call
+        import sknetwork.clustering.leiden as lm
+        orig = lm.optimize_refine_core
+
+        def recorder(*args, **kw):
+            sd = kw.get('seed', args[12] if len(args) > 12 else None)
+            if sd is not None and sd >= 0:
+                seeds.append(int(sd))
+            else:
+                sd = (base + 7919 * len(seeds)) % (2 ** 31 - 1)
+                seeds.append(sd)
+                _libc.srand(sd)
+            return orig(*args, **kw)
+        lm.optimize_refine_core = recorder
+    est.fit(a, force_bipartite=fb)
+    incs = [float(x) for x in re.findall(r'Increase: (\S+)', est.log)]
+    if bip:
+        labs = [int(x) for x in est.labels_row_] + [int(x) for x in est.labels_col_]
+    else:
+        labs = [int(x) for x in est.labels_]
+    ans = 'ok %s %s' % (enc_list(labs), enc_ratlist(Fraction(x) for x in incs))
+    if desc['f'] == 'Leiden':
+        ans += ' ' + enc_list(seeds)
+    return ans
+
+
+_IMPL = {'get_modularity': _impl_modularity, 'optimize_core': _impl_core, 'optimize_refine_core': _impl_refine,
+         'Louvain': _impl_fit, 'Leiden': _impl_fit}
+
+
+def _impl_of(desc):
+    try:
+        with np.errstate(all='ignore'):
+            return _IMPL[desc['f']](desc)
+    except ValueError:
+        return 'err ValueError'
+    except Exception as e:  # an unexpected exception class is an answer too (compared with the model's)
+        return 'exc ' + type(e).__name__
+
+
+def run_impls(descs):
+    """Implementation answer for every description, computed in forked workers (one alarm per call)."""
+    results = [None] * len(descs)
+    start = 0
+    while start < len(descs):
+        r, w = os.pipe()
+        pid = os.fork()
+        if pid == 0:
+            code = 0
+            try:
+                os.close(r)
+                signal.signal(signal.SIGALRM, signal.SIG_DFL)
+                out = os.fdopen(w, 'w')
+                for k in range(start, len(descs)):
+                    signal.alarm(CALL_TIMEOUT)
+                    ans = _impl_of(descs[k])
+                    signal.alarm(0)
+                    out.write(json.dumps([k, ans]) + '\n')
+                    out.flush()
+                out.close()
+            except BaseException:
+                code = 3
+            finally:
+                os._exit(code)
+        os.close(w)
+        last = start - 1
+        with os.fdopen(r) as inp:
+            for ln in inp:
+                k, ans = json.loads(ln)
+                results[k] = ans
+                last = k
+        _, status = os.waitpid(pid, 0)
+        if last + 1 < len(descs):
+            sig = os.WTERMSIG(status) if os.WIFSIGNALED(status) else 0
+            results[last + 1] = 'hang' if sig == signal.SIGALRM else 'crash %d' % (sig or os.WEXITSTATUS(status))
+            start = last + 2
+        else:
+            start = len(descs)
+    return results
+
+
+# ------------------------------------------------------------------------------------------------
+# cases from descriptions (a description is what a replay file stores) and the implementation's answer
+# ------------------------------------------------------------------------------------------------
+def case_modularity(desc, impl):
+    a = _mk_csr(desc)
+    inp = a.toarray() if desc.get('dense') else a
+    labels = desc['labels']
+    labels_col = desc.get('labels_col')
+    w = desc['weights']
+    res = desc['resolution']
     enc = sparse.csr_matrix(inp)          # what check_format builds
     g = _enc_csr(enc.shape, enc.indptr, enc.indices, enc.data)
     if isinstance(w, list):
-        wtok = 'c:' + enc_ratlist(Fraction(float(x)) for x in w) if w else 'c:-'
+        wtok = 'c:' + (enc_ratlist(Fraction(float(x)) for x in w) if w else '-')
     else:
         wtok = w.lower() if w.lower() in ('degree', 'uniform') else 'unknown'   # make_weights lower-cases the name
     ltok = enc_list(labels)
@@ -149,17 +289,7 @@ def case_modularity(desc):
     nontriv = impl.startswith('ok') and enc.nnz >= 1 and len(pos) > len(set(pos))
     sig = {'entry': 'get_modularity', 'weights': wtok.split(':')[0], 'bipartite': bool(bip)}
     return Case(('mod', g, ltok, lctok, wtok, res, bool(desc.get('dense'))), sig, run, impl, spec, nontriv,
-                dict(desc, f='get_modularity'), canon='mod')
-
-
-def _kernel_arrays(desc):
-    it = np.int64 if desc.get('itype', 'int64') == 'int64' else np.int32
-    return dict(
-        labels=np.array(desc['labels'], dtype=it), indices=np.array(desc['indices'], dtype=it),
-        indptr=np.array(desc['indptr'], dtype=it), data=_f32(desc['data']).copy(),
-        ow=_f32(desc['out_weights']).copy(), iw=_f32(desc['in_weights']).copy(),
-        oc=_f32(desc['out_cluster_weights']).copy(), ic=_f32(desc['in_cluster_weights']).copy(),
-        sl=_f32(desc['self_loops']).copy())
+                dict(desc), canon='mod')
 
 
 def _kernel_tokens(desc):
@@ -170,54 +300,26 @@ def _kernel_tokens(desc):
                                         enc_list([0] * k), enc_list(desc['self_loops'])]
 
 
-def case_core(desc):
-    from sknetwork.clustering.louvain_core import optimize_core
-    ar = _kernel_arrays(desc)
-    k = len(desc['out_cluster_weights'])
-    res, tol = desc['resolution'], desc['tol']
-
-    def f():
-        lab, inc = optimize_core(ar['labels'], ar['indices'], ar['indptr'], ar['data'], ar['ow'], ar['iw'], ar['oc'],
-                                 ar['ic'], np.zeros(k, dtype=np.float32), ar['sl'], res, tol)
-        return 'ok %s %d' % (enc_list(np.asarray(lab)), _bits([inc])[0])
-    impl = _call(f)
+def case_core(desc, impl):
     head, tail = _kernel_tokens(desc)
-    run = 'c06.core %s %s %d %d' % (' '.join(head), ' '.join(tail), _bits([res])[0], _bits([tol])[0])
+    run = 'c06.core %s %s %d %d' % (' '.join(head), ' '.join(tail), _bits([desc['resolution']])[0],
+                                    _bits([desc['tol']])[0])
     moved = impl.startswith('ok') and impl.split(' ')[1] != enc_list(desc['labels'])
     sig = {'entry': 'optimize_core', 'itype': desc.get('itype', 'int64')}
-    return Case(('core', run), sig, run, impl, None, moved, dict(desc, f='optimize_core'))
+    return Case(('core', run), sig, run, impl, None, moved, dict(desc), canon='kernel')
 
 
-def case_refine(desc):
-    from sknetwork.clustering.leiden_core import optimize_refine_core
-    ar = _kernel_arrays(desc)
-    k = len(desc['out_cluster_weights'])
-    res = desc['resolution']
-    it = ar['labels'].dtype
-    refined = np.array(desc['refined'], dtype=it)
+def case_refine(desc, impl):
     rands = _rands(desc['seed'])
-
-    def f():
-        out = optimize_refine_core(ar['labels'], refined, ar['indices'], ar['indptr'], ar['data'], ar['ow'], ar['iw'],
-                                   ar['oc'], ar['ic'], np.zeros(k, dtype=np.float32), ar['sl'], res)
-        return 'ok ' + enc_list(np.asarray(out))
-    impl = _call(f)
     head, tail = _kernel_tokens(desc)
-    run = 'c06.refine %s %s %s %d %s' % (' '.join(head), enc_list(desc['refined']), ' '.join(tail), _bits([res])[0],
-                                         enc_list(rands))
+    run = 'c06.refine %s %s %s %d %s' % (' '.join(head), enc_list(desc['refined']), ' '.join(tail),
+                                         _bits([desc['resolution']])[0], enc_list(rands))
     moved = impl.startswith('ok') and impl.split(' ')[1] != enc_list(desc['refined'])
     sig = {'entry': 'optimize_refine_core', 'itype': desc.get('itype', 'int32')}
-    return Case(('refine', run), sig, run, impl, None, moved, dict(desc, f='optimize_refine_core'), canon='refine')
+    return Case(('refine', run), sig, run, impl, None, moved, dict(desc), canon='refine')
 
 
-def _fit_labels(est, bip):
-    if bip:
-        return [int(x) for x in est.labels_row_] + [int(x) for x in est.labels_col_]
-    return [int(x) for x in est.labels_]
-
-
-def case_fit(desc, plain_rand=True):
-    from sknetwork.clustering import Louvain, Leiden
+def case_fit(desc, impl, plain_rand=True):
     algo = desc['f']
     a = _mk_csr(desc)
     kind, res = desc['kind'], desc['resolution']
@@ -225,26 +327,20 @@ def case_fit(desc, plain_rand=True):
     fb = bool(desc.get('force_bipartite'))
     bip = fb or a.shape[0] != a.shape[1]
     seed = desc.get('seed', 1)
-    rands = _rands(seed) if algo == 'Leiden' else []
-
-    def f():
-        cls = Louvain if algo == 'Louvain' else Leiden
-        est = cls(resolution=res, modularity=kind, tol_optimization=tol_o, tol_aggregation=tol_a,
-                  n_aggregations=n_agg, shuffle_nodes=False, sort_clusters=False, return_probs=False,
-                  return_aggregate=False)
-        est.fit(a, force_bipartite=fb)
-        incs = [float(x) for x in re.findall(r'Increase: (\S+)', est.log)]
-        return 'ok %s %s' % (enc_list(_fit_labels(est, bip)), enc_ratlist(Fraction(x) for x in incs))
-    impl = _call(f)
     g = _enc_csr(a.shape, a.indptr, a.indices, a.data)
     res32 = Fraction(float(np.float32(res)))
     tol32 = Fraction(float(np.float32(tol_o)))
+    seeds = []
+    if algo == 'Leiden' and impl.startswith('ok ') and len(impl.split(' ')) == 4:
+        seeds = [int(x) for x in impl.split(' ')[3].split(',')] if impl.split(' ')[3] != '-' else []
+        impl = ' '.join(impl.split(' ')[:3])
     run = None
     if desc.get('exact') and (algo == 'Louvain' or plain_rand):
         run = 'c06.%s %s %s %s %s %d %s %s' % (algo.lower(), kind if kind in KINDS else 'other', enc_rat(res32),
                                                enc_rat(tol32), enc_rat(Fraction(tol_a)), n_agg, g, enc_bool(fb))
         if algo == 'Leiden':
-            run += ' ' + enc_list(rands)
+            # one oracle per aggregation: the stream of rand() after srand(seed of that aggregation)
+            run += ' ' + (';'.join(enc_list(_rands(sd)) for sd in seeds) if seeds else '-')
     spec = None
     moved = False
     if impl.startswith('ok '):
@@ -252,22 +348,31 @@ def case_fit(desc, plain_rand=True):
         spec = 'c06.spec_fit %s %s %s %s %s %s %s' % (kind, enc_rat(res32), g, enc_bool(fb), ltok, itok, enc_rat(EPS32))
         labs = [int(x) for x in ltok.split(',')]
         moved = len(set(labs)) < len(labs)
+    elif run is None:
+        # no model answer to compare a refusal / hang with: ask the model whether the input is refused
+        run = 'c06.accepts %s %s %s' % (kind if kind in KINDS else 'other', g, enc_bool(fb))
+        impl = 'refused' if impl.startswith('err') else impl
     sig = {'entry': algo + '.fit', 'kind': kind, 'bipartite': bool(bip)}
     return Case((algo, kind, res, tol_o, tol_a, n_agg, g, fb, seed if algo == 'Leiden' else 0, bool(desc.get('exact'))),
                 sig, run, impl, spec, moved, dict(desc))
 
 
-def case_from_desc(desc, plain_rand=True):
+def case_from_desc(desc, impl, plain_rand=True):
     f = desc.get('f')
     if f == 'get_modularity':
-        return case_modularity(desc)
+        return case_modularity(desc, impl)
     if f == 'optimize_core':
-        return case_core(desc)
+        return case_core(desc, impl)
     if f == 'optimize_refine_core':
-        return case_refine(desc)
+        return case_refine(desc, impl)
     if f in ('Louvain', 'Leiden'):
-        return case_fit(desc, plain_rand)
+        return case_fit(desc, impl, plain_rand)
     raise ValueError('unknown case description %r' % (f,))
+
+
+def cases_of(descs, plain_rand=True):
+    impls = run_impls(descs)
+    return [case_from_desc(d, i, plain_rand) for d, i in zip(descs, impls)]
 
 
 # ------------------------------------------------------------------------------------------------
@@ -282,6 +387,8 @@ def _same(c, model, impl, spec_ok):
         # the model also reports how much of the oracle is left; it must not have run out
         parts = model.split(' ')
         return parts[1] == impl.split(' ')[1] and int(parts[2]) > 0
+    if model == 'fuel' and impl == 'hang':
+        return True     # neither terminates within its budget: termination is C17's subject
     return False
 
 
@@ -493,7 +600,10 @@ def _fit_desc(algo, a, kind, res, tol_o, tol_a, n_agg, fb, exact, seed):
 
 
 FIT_RES = [1, 0.5, 2, 1.5, 0.25, 3]
-TOLS = [1e-3, 0, 1e-2, 0.05, 1e-7]
+TOLS = [1e-3, 0, 1e-2, 0.05, 1e-7]      # where float32 arithmetic is exact
+# elsewhere no zero / tiny tolerance: with tol_optimization = 0 float32 rounding can keep `optimize_core` moving
+# nodes in a cycle of spurious gains for ever (observed; termination is C17's subject, not C06's)
+TOLS_INEXACT = [1e-3, 1e-2, 0.05, 1e-4]
 
 
 def gen_fits(ctx):
@@ -502,10 +612,10 @@ def gen_fits(ctx):
     descs = []
 
     def both(a, kind, res, fb=False, exact=None, tol_o=None, tol_a=None, n_agg=None):
-        tol_o = rng.choice(TOLS) if tol_o is None else tol_o
+        ex = exact_domain(a, kind, res, fb) if exact is None else exact
+        tol_o = rng.choice(TOLS if ex else TOLS_INEXACT) if tol_o is None else tol_o
         tol_a = rng.choice(TOLS) if tol_a is None else tol_a
         n_agg = rng.choice([-1, -1, -1, 1, 2]) if n_agg is None else n_agg
-        ex = exact_domain(a, kind, res, fb) if exact is None else exact
         for algo in ('Louvain', 'Leiden'):
             descs.append(_fit_desc(algo, a, kind, res, tol_o, tol_a, n_agg, fb, ex, rng.randrange(1, 10 ** 6)))
         ctx.count('fit:' + ('exact' if ex else 'spec-only'))
@@ -649,7 +759,7 @@ def gen_kernels(ctx):
         a = _normalised(rng, n, directed, rng.random() < 0.3, rng.choice([0.15, 0.3, 0.6]), rng.choice(wsets))
         kind = rng.choice(KINDS)
         res = rng.choice([1, 1, 0.5, 2, 1.5, 0.7, 3, 0.1])
-        tol = rng.choice([1e-3, 1e-3, 0, 1e-2, 0.05, 1e-6])
+        tol = rng.choice([1e-3, 1e-3, 1e-2, 0.05, 1e-4, 1e-5])
         start = 'singletons' if rng.random() < 0.6 else 'random'
         itype = rng.choice(['int64', 'int32'])
         d = _kernel_desc(rng, a, kind, res, tol, start, itype, rng.random() < 0.3)
@@ -669,34 +779,37 @@ def gen_kernels(ctx):
     return core, refine
 
 
-def build_cases(ctx):
+def build_descs(ctx):
     plain = _plain_rand(ctx)
     if not plain:
-        ctx.note('leiden_core no longer draws from an unseeded libc rand(): Leiden run lines are replaced by spec lines')
-    cases = []
+        ctx.note('leiden_core no longer draws from libc rand(): Leiden run lines are replaced by spec lines')
+    descs = []
     corpus = os.path.join(VERIF, 'corpus', 'C06.jsonl')
     if os.path.exists(corpus):
         for ln in open(corpus):
             ln = ln.strip()
             if ln and not ln.startswith('#'):
-                cases.append(case_from_desc(json.loads(ln), plain))
+                descs.append(json.loads(ln))
                 ctx.count('corpus')
     for d in gen_modularity(ctx):
-        cases.append(case_modularity(d))
+        d['f'] = 'get_modularity'
+        descs.append(d)
     core, refine = gen_kernels(ctx)
-    for d in core:
-        cases.append(case_core(d))
+    descs += core
     if plain:
-        for d in refine:
-            cases.append(case_refine(d))
-    for d in gen_fits(ctx):
-        cases.append(case_fit(d, plain))
+        descs += refine
+    descs += gen_fits(ctx)
     ctx.exhaustive = False
-    return cases
+    return descs, plain
 
 
 def run(ctx):
-    evaluate(ctx, build_cases(ctx))
+    descs, plain = build_descs(ctx)
+    cases = cases_of(descs, plain)
+    for c in cases:
+        if c.impl in ('hang',) or str(c.impl).startswith('crash'):
+            ctx.count('impl:' + str(c.impl).split(' ')[0])
+    evaluate(ctx, cases)
 
 
 # ------------------------------------------------------------------------------------------------
@@ -704,7 +817,12 @@ def run(ctx):
 # ------------------------------------------------------------------------------------------------
 def search(ctx, pending):
     rng = ctx.rng
-    cases = []
+    descs = []
+
+    def mod_desc(a, lab, w, res):
+        d = _csr_desc(a)
+        d.update(f='get_modularity', labels=lab, labels_col=None, weights=w, resolution=res)
+        return d
     for n in (2, 3, 4):
         for es in graphs.all_undirected(n, loops=(n <= 3)):
             if not es:
@@ -713,26 +831,18 @@ def search(ctx, pending):
             for kind in KINDS:
                 for res in (1, 0.5, 2):
                     for algo in ('Louvain', 'Leiden'):
-                        cases.append(case_fit(_fit_desc(algo, a, kind, res, 1e-3, 1e-3, -1, False, False, 1), False))
+                        descs.append(_fit_desc(algo, a, kind, res, 1e-3, 1e-3, -1, False, False, 1))
             for lab in _labelings(n):
-                d = _csr_desc(a)
-                d.update(labels=lab, labels_col=None, weights=rng.choice(['degree', 'uniform']), resolution=rng.choice([1, 0.5, 2]))
-                c = case_modularity(d)
-                c.run = None
-                cases.append(c)
+                descs.append(mod_desc(a, lab, rng.choice(['degree', 'uniform']), rng.choice([1, 0.5, 2])))
     for es in graphs.all_digraphs(3):
         if not es:
             continue
         a = _csr_from(3, es, [1] * len(es))
         for kind in KINDS:
             for algo in ('Louvain', 'Leiden'):
-                cases.append(case_fit(_fit_desc(algo, a, kind, 1, 1e-3, 1e-3, -1, False, False, 1), False))
+                descs.append(_fit_desc(algo, a, kind, 1, 1e-3, 1e-3, -1, False, False, 1))
         for lab in _labelings(3):
-            d = _csr_desc(a)
-            d.update(labels=lab, labels_col=None, weights='degree', resolution=1)
-            c = case_modularity(d)
-            c.run = None
-            cases.append(c)
+            descs.append(mod_desc(a, lab, 'degree', 1))
     for nr, nc in [(2, 2), (2, 3)]:
         for es in graphs.all_bipartite(nr, nc):
             if not es:
@@ -740,9 +850,13 @@ def search(ctx, pending):
             b = _csr_from(nr, es, [1] * len(es), m=nc)
             for kind in KINDS:
                 for algo in ('Louvain', 'Leiden'):
-                    cases.append(case_fit(_fit_desc(algo, b, kind, 1, 1e-3, 1e-3, -1, nr == nc, False, 1), False))
+                    descs.append(_fit_desc(algo, b, kind, 1, 1e-3, 1e-3, -1, nr == nc, False, 1))
+    cases = cases_of(descs, False)
+    for c in cases:
+        if c.spec is not None:
+            c.run = None          # the search judges with the specification only
     sub = Sub(ctx)
-    evaluate(sub, cases)
+    evaluate(sub, [c for c in cases if c.run or c.spec])
     return sub.found()
 
 
@@ -752,6 +866,6 @@ def replay(ctx, payload):
         w = payload.get('what_no_longer_checks') or {}
         case = w.get('case') or {}
     if case.get('f'):
-        evaluate(ctx, [case_from_desc(case, _plain_rand(ctx))])
+        evaluate(ctx, cases_of([case], _plain_rand(ctx)))
     else:
-        evaluate(ctx, build_cases(ctx))
+        run(ctx)
